@@ -5,3 +5,4 @@ import FeemsProofs.C19
 import FeemsProofs.C17
 import FeemsProofs.Lemmas.PmsLemmas
 import FeemsProofs.C15
+import FeemsProofs.C02
